@@ -20,6 +20,10 @@ import (
 type lockCtx struct {
 	cx     *Ctx
 	mu     *types.Var
+	// generalisation to other exclusive regions (the lossy buffer's busy flag): when set these replace the mutex ops
+	isRel  func(ssa.Instruction) bool
+	isTry  func(ssa.Instruction) bool
+	plain  bool // no mutex-specific exceptions / helper summaries
 	funcs  []*ssa.Function
 	sites  map[*ssa.Function][]ssa.Instruction // synchronous call / hand-over sites
 	escape map[*ssa.Function]string            // function value used in a way that loses the context
@@ -215,7 +219,7 @@ func describeCallee(c ssa.CallInstruction) string {
 		return "interface method " + cc.Method.Name()
 	}
 	if f := fieldOf(cc.Value); f != nil {
-		return "func field " + f.Name()
+		return "func field " + fname(f)
 	}
 	return "dynamic callee"
 }
@@ -256,7 +260,9 @@ func (lc *lockCtx) pruneDead() {
 }
 
 func (lc *lockCtx) solve() {
-	lc.pruneDead()
+	if !lc.plain {
+		lc.pruneDead()
+	}
 	for _, fn := range lc.funcs {
 		o := origin(fn)
 		_, esc := lc.escape[o]
@@ -295,13 +301,137 @@ func (lc *lockCtx) step(in ssa.Instruction, held bool) bool {
 	if _, isDefer := in.(*ssa.Defer); isDefer {
 		return held
 	}
+	if lc.plain {
+		if lc.isRel(in) {
+			return false
+		}
+		return held
+	}
 	if mutexOp(in, lc.mu, "Lock") {
 		return true
 	}
 	if mutexOp(in, lc.mu, "Unlock") {
 		return false
 	}
+	// helpers that take or release the lock on behalf of their caller (unlockAndReschedule, lockAndMaintain ...)
+	if c := calleeOf(in); c != nil {
+		switch mutexEffect(c, lc.mu, 0) {
+		case effRelease:
+			return false
+		case effAcquire:
+			return true
+		}
+	}
 	return held
+}
+
+type lockEffect int
+
+const (
+	effNone lockEffect = iota
+	effRelease
+	effAcquire
+	effUnknown
+)
+
+var mutexEffectMemo = map[*ssa.Function]map[*types.Var]lockEffect{}
+
+// mutexEffect summarises what a module function does to mutex field mu as seen by its caller:
+// effRelease - every return path ends with the lock released by this function (it unlocks without having locked);
+// effAcquire - every return path ends with the lock held, taken by this function;
+// effNone    - balanced or untouched.
+func mutexEffect(fn *ssa.Function, mu *types.Var, depth int) lockEffect {
+	fn = origin(fn)
+	if fn == nil || len(fn.Blocks) == 0 || depth > 4 || fn.Pkg == nil || !strings.HasPrefix(fn.Pkg.Pkg.Path(), modPath) {
+		return effNone
+	}
+	if m, ok := mutexEffectMemo[fn]; ok {
+		if e, ok := m[mu]; ok {
+			return e
+		}
+	} else {
+		mutexEffectMemo[fn] = map[*types.Var]lockEffect{}
+	}
+	mutexEffectMemo[fn][mu] = effNone // recursion guard
+	// abstract state per block: -1 released-by-us, 0 untouched/balanced, +1 acquired-by-us, 9 conflicting
+	const top = 9
+	state := map[*ssa.BasicBlock]int{}
+	seen := map[*ssa.BasicBlock]bool{fn.Blocks[0]: true}
+	work := []*ssa.BasicBlock{fn.Blocks[0]}
+	touches := false
+	exitStates := map[int]bool{}
+	for len(work) > 0 {
+		b := work[0]
+		work = work[1:]
+		cur := state[b]
+		for _, in := range b.Instrs {
+			if _, isDefer := in.(*ssa.Defer); isDefer {
+				continue
+			}
+			switch {
+			case mutexOp(in, mu, "Lock"):
+				touches = true
+				cur++
+			case mutexOp(in, mu, "Unlock"):
+				touches = true
+				cur--
+			default:
+				if c := calleeOf(in); c != nil && origin(c) != fn {
+					switch mutexEffect(c, mu, depth+1) {
+					case effRelease:
+						touches = true
+						cur--
+					case effAcquire:
+						touches = true
+						cur++
+					}
+				}
+			}
+			if _, isRet := in.(*ssa.Return); isRet {
+				exitStates[cur] = true
+			}
+		}
+		for _, s := range b.Succs {
+			if !seen[s] {
+				seen[s] = true
+				state[s] = cur
+				work = append(work, s)
+			} else if state[s] != cur {
+				state[s] = top
+			}
+		}
+	}
+	e := effNone
+	if touches && len(exitStates) == 1 {
+		if exitStates[-1] {
+			e = effRelease
+		} else if exitStates[1] {
+			e = effAcquire
+		}
+	}
+	mutexEffectMemo[fn][mu] = e
+	return e
+}
+
+// unlockLike / lockLike: direct mutex operations or calls of helpers with that net effect.
+func unlockLike(in ssa.Instruction, mu *types.Var) bool {
+	if mutexOp(in, mu, "Unlock") {
+		return true
+	}
+	if c := calleeOf(in); c != nil {
+		return mutexEffect(c, mu, 0) == effRelease
+	}
+	return false
+}
+
+func lockLike(in ssa.Instruction, mu *types.Var) bool {
+	if mutexOp(in, mu, "Lock") {
+		return true
+	}
+	if c := calleeOf(in); c != nil {
+		return mutexEffect(c, mu, 0) == effAcquire
+	}
+	return false
 }
 
 func (lc *lockCtx) flow(fn *ssa.Function) {
@@ -331,12 +461,16 @@ func (lc *lockCtx) flow(fn *ssa.Function) {
 						trueIdx = 1
 					}
 					if call, ok := c.(*ssa.Call); ok {
-						if mutexOp(call, lc.mu, "TryLock") && si == trueIdx {
+						if lc.plain {
+							if lc.isTry(call) && si == trueIdx {
+								out = true
+							}
+						} else if mutexOp(call, lc.mu, "TryLock") && si == trueIdx {
 							out = true
 						}
 						// token hand-off (named exception): in drainBuffers the executor task that wins the
 						// token passed in by scheduleDrainBuffers runs with the scheduler's lock
-						if si == trueIdx && fn.Name() == "drainBuffers" && isStdMethod(call, "sync/atomic", "Uint32", "CompareAndSwap") {
+						if !lc.plain && si == trueIdx && cname(fn) == "drainBuffers" && isStdMethod(call, "sync/atomic", "Uint32", "CompareAndSwap") {
 							if _, isParam := recvValue(call).(*ssa.Parameter); isParam {
 								out = true
 							}
@@ -356,7 +490,7 @@ func (lc *lockCtx) flow(fn *ssa.Function) {
 }
 
 func (lc *lockCtx) heldAt(in ssa.Instruction) bool {
-	if outermost(in.Parent()).Name() == "newCache" {
+	if !lc.plain && cname(outermost(in.Parent())) == "newCache" {
 		return true // named exception: the cache object is not yet published while it is being constructed
 	}
 	b := in.Block()
@@ -458,4 +592,27 @@ func uniq(ss []string) []string {
 		}
 	}
 	return out
+}
+
+var busyCtxCache = map[*Program]*lockCtx{}
+
+// busyContext: the same must-held analysis for the striped read buffer's busy flag
+// (acquired on the success edge of busy.CompareAndSwap(0,1), released by busy.Store(0)).
+func busyContext(cx *Ctx) *lockCtx {
+	if lc, ok := busyCtxCache[cx.P]; ok {
+		return lc
+	}
+	busy := cx.P.Field(lossyPkg, "Striped", "busy")
+	if busy == nil {
+		return nil
+	}
+	lc := &lockCtx{cx: cx, mu: busy, plain: true, sites: map[*ssa.Function][]ssa.Instruction{}, escape: map[*ssa.Function]string{},
+		entry: map[*ssa.Function]bool{}, blkIn: map[*ssa.BasicBlock]bool{}, poc: map[*ssa.Function]map[int]int{}}
+	lc.isRel = func(in ssa.Instruction) bool { return isStoreConst(in, busy, 0) }
+	lc.isTry = func(in ssa.Instruction) bool { return isCASConst(in, busy, 0, 1) }
+	lc.funcs = cx.P.FuncsOfPkg(lossyPkg)
+	lc.collect()
+	lc.solve()
+	busyCtxCache[cx.P] = lc
+	return lc
 }
